@@ -176,6 +176,10 @@ class FIXContainer:
 
         if tag in self:
             group_container = self.tags[tag]
+            if not isinstance(group_container, _FIXRepeatingGroupContainer):
+                raise FIXMessageError(
+                    f"{tag=} already exists as simple tag, can't add group item to it"
+                )
             group_container.add_group(group, index)
         else:
             group_container = _FIXRepeatingGroupContainer()
@@ -275,7 +279,7 @@ class FIXContainer:
         """
         g = self.get_group_list(tag)
 
-        if index >= len(g):
+        if index >= len(g) or index < -len(g):
             raise TagNotFoundError(
                 f"get_group_by_index: index is out of range of {tag=} group"
             )
